@@ -115,3 +115,60 @@ Example C13_nonvacuous :
   | Fault _ => False
   end.
 Proof. vm_compute. repeat split; reflexivity. Qed.
+
+(* ---------------------------------------------------------------- release path (Gtp5g.UpdateFAR / applyAction / WritePacket,
+   model/Release.v, after fix 6f99407) *)
+From GoUpf Require Import GtpuGen Gtpu GtpuRef Release ReleaseProofs.
+
+(* one PDR's release: the reference GTP-U decoder reads back, in queue order and each exactly once, the queued
+   packets, every datagram addressed to the FAR's peer/port with the FAR's TEID and the PDR's QFI *)
+Theorem C13_release_pdr_exact : forall s f pdr far qs h,
+  alook pdr (r_pdrs s) = Some (far, qs) -> kf_ohc f = Some h -> oh_teid h < 4294967296 ->
+  (forall q, first_qfi s qs = Some q -> q < 64) -> Forall small_pkt (queue_of s pdr) ->
+  map e_payload (release_pdr s f pdr) = map Some (queue_of s pdr) /\
+  Forall (fun e => e_dst e = (oh_peer h, oh_port h) /\ e_teid e = Some (oh_teid h) /\ e_qfi e = Some (first_qfi s qs))
+         (release_pdr s f pdr).
+Proof. exact release_pdr_exact. Qed.
+Print Assumptions C13_release_pdr_exact.
+
+(* BUFF -> FORW: exactly the releases of the FAR's PDRs, in the data plane's PDR order, with the UPDATED parameters *)
+Theorem C13_buff_to_forw : forall s u old a,
+  alook (fu_id u) (r_fars s) = Some old -> fu_action u = Some a ->
+  flag_of APPLY_ACT_BUFF (kf_action old) = true -> flag_of APPLY_ACT_DROP a = false -> flag_of APPLY_ACT_FORW a = true ->
+  let f' := mkFar a (match fu_ohc u with Some h => Some h | None => kf_ohc old end) in
+  let '(s', es) := update_far s u in
+  es = flat_map (fun p => release_pdr s f' p) (related_pdrs s (fu_id u)) /\ alook (fu_id u) (r_fars s') = Some f'.
+Proof. exact update_far_forw. Qed.
+Print Assumptions C13_buff_to_forw.
+
+(* BUFF -> DROP: nothing leaves, the FAR's queues are emptied, every other queue is untouched *)
+Theorem C13_buff_to_drop : forall s u old a,
+  alook (fu_id u) (r_fars s) = Some old -> fu_action u = Some a ->
+  flag_of APPLY_ACT_BUFF (kf_action old) = true -> flag_of APPLY_ACT_DROP a = true ->
+  let '(s', es) := update_far s u in
+  es = [] /\ (forall p, In p (related_pdrs s (fu_id u)) -> queue_of s' p = []) /\
+  (forall p, ~ In p (related_pdrs s (fu_id u)) -> queue_of s' p = queue_of s p).
+Proof. exact update_far_drop. Qed.
+Print Assumptions C13_buff_to_drop.
+
+Theorem C13_no_release_otherwise : forall s u,
+  (fu_action u = None \/ (exists old, alook (fu_id u) (r_fars s) = Some old /\ flag_of APPLY_ACT_BUFF (kf_action old) = false)
+   \/ alook (fu_id u) (r_fars s) = None) ->
+  snd (update_far s u) = [] /\ r_q (fst (update_far s u)) = r_q s.
+Proof. exact update_far_no_release. Qed.
+Print Assumptions C13_no_release_otherwise.
+
+(* nothing survives the session: a later session under the same SEID cannot release old packets *)
+Theorem C13_ended_session_holds_nothing : forall s, r_q (fst (fst (rstep_run s RDel))) = [].
+Proof. exact ended_session_holds_nothing. Qed.
+Theorem C13_empty_queues_emit_nothing : forall s u, r_q s = [] -> snd (update_far s u) = [].
+Proof. exact update_far_empty_queues. Qed.
+Print Assumptions C13_empty_queues_emit_nothing.
+
+Example C13_release_nonvacuous :
+  let s := mkR [(1, mkFar 12 None)] [(1, (1, [5])); (2, (1, [5]))] [(5, 9)] [(1, [[170; 1]; [170; 2]]); (2, [[187]])] true in
+  match update_far s (mkFarUpd 1 (Some 2) (Some (mkOhc 200 1 2152))) with
+  | (s', es) => map e_payload es = [Some [170; 1]; Some [170; 2]; Some [187]] /\ map e_teid es = [Some 200; Some 200; Some 200]
+                /\ map e_qfi es = [Some (Some 9); Some (Some 9); Some (Some 9)] /\ queue_of s' 1 = [] /\ queue_of s' 2 = []
+  end.
+Proof. vm_compute. repeat split; reflexivity. Qed.
